@@ -45,6 +45,11 @@ var c19Programs = []string{
 	`invite!("dummy"); message`,
 	`m := import("dummy"); m.message`,
 	`message`,
+	// hashing a str that belongs to the program (a descendant of Str with its own props) under a
+	// text no earlier program has used
+	`s := Str.bear({shout: m{|| 1}}).new("zebraQuaggaA"); s != "okapi"`,
+	`k := Str.bear({tag: 2}).new("zebraQuaggaB"); %{k: 1}[k]`,
+	`"zebraQuaggaA := 5".evalEnv.keys@{|k| k.proto == Str}`,
 }
 
 // run evaluates src in a FRESH scope of the shared world and returns (Inspect, stack trace).
@@ -82,7 +87,7 @@ func H_C19_frame() {
 	hi := rt.Param(0)
 	bi := rt.Choice(len(c19Programs)) // the later program: a solver choice among the family
 	if rt.Param(1) >= 0 {
-		rt.Assume(bi == rt.Param(1) || bi == hi || bi == 3 || bi == 4 || bi == 14 || bi == 16 || bi == 17 || bi == 23)
+		rt.Assume(bi == rt.Param(1) || bi == hi || bi == 3 || bi == 4 || bi == 14 || bi == 16 || bi == 17 || bi == 23 || bi == 26)
 	}
 	a := int64(7) // results are compared by their printed form, so the input is concrete
 	world := c19WorldSnap()
@@ -92,6 +97,7 @@ func H_C19_frame() {
 		for _, s := range world {
 			rt.Assert(s.same(), msg)
 		}
+		rt.Assert(object.VH_C19_symtabPlain(), "the symbol table hands later programs plain strs only, never an object of an earlier program")
 	}
 	v1, st1, _ := c19Run(c19Programs[bi], a)
 	unchanged("an evaluation must leave the shared built-in objects and errors unchanged")
